@@ -105,7 +105,7 @@ def formulas(k, with_repeats=True):
 
 # ------------------------------------------------------------------ programs
 FORMS = ("match_events", "await_flows", "when_events", "when_flows", "start_match_flows", "await_actions",
-         "await_flows_cancel", "when_flows_cancel")
+         "await_flows_cancel", "when_flows_cancel", "match_events_loop", "await_flows_loop")
 
 
 def program(t, form):
@@ -132,6 +132,13 @@ def program(t, form):
         else:
             body = f"  when {g}\n    send Marker()\n  match Done()\n"
         return flows + "flow grp\n" + body + "\nflow main\n  start grp\n  match Done()\n"
+    if form == "match_events_loop":
+        # the statement is executed again and again: every round starts with an empty received set
+        g = show(t, lambda i: f"E{i}()")
+        return f"flow main\n  while True\n    match {g}\n    send Marker()\n"
+    if form == "await_flows_loop":
+        g = show(t, lambda i: f"f{i}")
+        return flows + f"flow main\n  while True\n    await {g}\n    send Marker()\n"
     if form == "start_match_flows":
         # explicit start + match on the references' Finished events
         starts = "".join(f"  start f{i} as $r{i}\n" for i in lv)
@@ -153,6 +160,7 @@ def explore(task):
     names = [(f"E{i}", {}) for i in lv] + [("X", {})]
     fixed = [("ext", n, a) for n, a in names]
     cancel = form.endswith("_cancel")
+    loop_form = form.endswith("_loop")
     if cancel:
         fixed += [("internal", "StopFlow", {"flow_id": f"f{i}"}) for i in lv]
 
@@ -175,6 +183,8 @@ def explore(task):
                 dead.add(i)  # this flow failed before finishing: its Finished event can never come
                 ex.stats.bump("member_flow_failures")
         after = evaluate(t, recv)
+        if loop_form and after:
+            recv = set()  # the next round of the loop starts from scratch
         nxt.aux["recv"] = tuple(sorted(recv))
         if dead:
             nxt.aux["dead"] = tuple(sorted(dead))
@@ -193,8 +203,10 @@ def explore(task):
             )
 
     def stop_expand(node):
-        # explore two more events after the marker
+        # explore two more events after the marker (loop forms: until the depth bound)
         m = node.aux.get("markers", 0)
+        if loop_form:
+            return m >= 2 and node.aux.get("_after", 0) >= 1
         if m:
             left = node.aux.get("_after", 0)
             return left >= 2
@@ -209,7 +221,7 @@ def explore(task):
         src,
         alphabet,
         monitors=[monitor, monitor_after] + _c09(),
-        depth=1 + len(lv) + 2 + depth_extra + (1 if cancel else 0),
+        depth=1 + len(lv) + 2 + depth_extra + (1 if cancel else 0) + (len(lv) + 1 if loop_form else 0),
         stop_expand=stop_expand,
     )
     ex.run()
